@@ -96,4 +96,7 @@ theorem delRaw_slice (l vs : List Nat) :
 theorem ofVal_slice (u : Val) : (ofVal u).slice = match u with | .u32s l => some l | _ => none := by
   cases u <;> simp [ofVal]
 
+theorem clone_ofVal (u : Val) : (ofVal u).clone = ofVal u := by
+  cases u <;> simp [ofVal, Content.clone]
+
 end Hv.Data
